@@ -40,6 +40,10 @@ TABLES = {
              ('ve', ('vec', 'Neg'), None), ('full', 'Full', 0), ('vfull', ('vec', 'Full'), None), ('d', 'double', 0.0), ('f', 'float', 0.0),
              ('vd', ('vec', 'double'), None), ('vf', ('vec', 'float'), None)],
     'Geo': [('poly', 'Poly', None), ('tri', 'Tri', None), ('vtri', ('vec', 'Tri'), None), ('n', 'int', 0)],
+    'DepFirst': [('u', ('union', 'Any'), None), ('v', ('uvec', 'Any'), None), ('n', 'int', 0)],
+    'DepMid': [('u', ('union', 'Any'), None), ('v', ('uvec', 'Any'), None), ('w', ('union', 'Any'), None), ('s', 'string', None)],
+    'DepLast': [('u', ('union', 'Any'), None), ('v', ('uvec', 'Any'), None), ('w', ('union', 'Any'), None)],
+    'DepOnly': [('n', 'int', 0), ('s', 'string', None)],
     'Sub': [('id', 'uint', 0), ('tag', 'string', None), ('pt', 'Pt', None)],
     'Root': [('b', 'bool', False), ('i8', 'byte', -3), ('u8', 'ubyte', 0), ('i16', 'short', 0), ('u16', 'ushort', 500),
              ('i32', 'int', 0), ('u32', 'uint', 0), ('i64', 'long', 0), ('u64', 'ulong', 0), ('f32', 'float', 0.0),
@@ -54,7 +58,7 @@ TABLES = {
 REQUIRED = {('Sub', 'tag'), ('Req', 'a'), ('Req', 'b'), ('Req', 'c')}
 UNIONS = {'Any': [('Leaf', 'Leaf'), ('Other', 'Other'), ('Pt', 'Pt'), ('Str', 'string')],
           'Tree': [('Node', 'Node'), ('Leaf', 'Leaf'), ('Other', 'Other')]}   # code = index + 1
-ROOTS = ['Root', 'Leaf', 'Other', 'Sub', 'Rec', 'Node', 'Req', 'Nums', 'Geo', 'Pt', 'Fix', 'Tri', 'Poly']
+ROOTS = ['Root', 'Leaf', 'Other', 'Sub', 'Rec', 'Node', 'Req', 'Nums', 'Geo', 'DepFirst', 'DepMid', 'DepLast', 'DepOnly', 'Pt', 'Fix', 'Tri', 'Poly']
 
 # powers of ten and of two with their neighbours: digit-count boundaries of the integer printers
 _GRID = sorted(set([10 ** k + d for k in range(1, 20) for d in (-1, 0, 1)] + [2 ** k + d for k in (31, 32, 33, 63) for d in (-1, 0, 1)] +
